@@ -224,7 +224,8 @@ def parse_output(text, rr):
         elif k == "P":
             ln = int(parts[1])
             rr.res[ln] = Res("P", dict(n=int(parts[2]), nfail=int(parts[3]), first=int(parts[4]),
-                                       last=int(parts[5])), [], line)
+                                       last=int(parts[5]),
+                                       firstfail=int(parts[6]) if len(parts) > 6 else -1), [], line)
             rr.last_line = ln
         elif k == "E":
             rr.harness_error = line
